@@ -37,3 +37,313 @@ pub proof fn lemma_stsc_first_sample_congr(a: Seq<StscEntry>, b: Seq<StscEntry>,
         assert(a[i - 1].first_chunk == b[i - 1].first_chunk);
     }
 }
+
+// ---------------------------------------------------------------- stts (8.6.1.2): runs of (sample_count, sample_delta)
+pub open spec fn stts_total(e: Seq<SttsEntry>, n: int) -> int
+    decreases n
+{
+    if n <= 0 { 0 } else { stts_total(e, n - 1) + e[n - 1].sample_count }
+}
+
+/// sum of the deltas of all samples of the first n runs
+pub open spec fn stts_elapsed(e: Seq<SttsEntry>, n: int) -> int
+    decreases n
+{
+    if n <= 0 { 0 } else { stts_elapsed(e, n - 1) + e[n - 1].sample_count * e[n - 1].sample_delta }
+}
+
+/// sample k (1-based) lies in run i
+pub open spec fn stts_covers(e: Seq<SttsEntry>, i: int, k: int) -> bool {
+    0 <= i < e.len() && stts_total(e, i) < k <= stts_total(e, i + 1)
+}
+
+/// DT(k) = sum of the deltas of samples 1..k-1, and delta(k), when k lies in run i
+pub open spec fn stts_time_in(e: Seq<SttsEntry>, i: int, k: int) -> int {
+    stts_elapsed(e, i) + (k - 1 - stts_total(e, i)) * e[i].sample_delta
+}
+
+pub proof fn lemma_stts_total_mono(e: Seq<SttsEntry>, a: int, b: int)
+    requires 0 <= a <= b
+    ensures stts_total(e, a) <= stts_total(e, b), stts_elapsed(e, a) <= stts_elapsed(e, b)
+    decreases b - a
+{
+    if a < b {
+        lemma_stts_total_mono(e, a, b - 1);
+        assert(e[b - 1].sample_count * e[b - 1].sample_delta >= 0) by(nonlinear_arith)
+            requires e[b - 1].sample_count >= 0, e[b - 1].sample_delta >= 0;
+    }
+}
+
+/// the covering run is unique (decode is a function)
+pub proof fn lemma_stts_covers_unique(e: Seq<SttsEntry>, i: int, j: int, k: int)
+    requires stts_covers(e, i, k), stts_covers(e, j, k)
+    ensures i == j
+{
+    if i < j { lemma_stts_total_mono(e, i + 1, j); }
+    if j < i { lemma_stts_total_mono(e, j + 1, i); }
+}
+
+/// elapsed time is bounded by (number of samples) * 2^32: the u64 accumulator of a reader cannot overflow
+pub proof fn lemma_stts_elapsed_bound(e: Seq<SttsEntry>, n: int)
+    requires 0 <= n <= e.len()
+    ensures stts_elapsed(e, n) <= stts_total(e, n) * 0xffff_ffff, 0 <= stts_total(e, n), 0 <= stts_elapsed(e, n)
+    decreases n
+{
+    if n > 0 {
+        lemma_stts_elapsed_bound(e, n - 1);
+        let c = e[n - 1].sample_count as int;
+        let d = e[n - 1].sample_delta as int;
+        assert(c * d <= c * 0xffff_ffff && c * d >= 0) by(nonlinear_arith) requires 0 <= c, 0 <= d <= 0xffff_ffff;
+        assert((stts_total(e, n - 1) + c) * 0xffff_ffff == stts_total(e, n - 1) * 0xffff_ffff + c * 0xffff_ffff) by(nonlinear_arith);
+    }
+}
+
+// ---------------------------------------------------------------- ctts (8.6.1.3)
+pub open spec fn ctts_total(e: Seq<CttsEntry>, n: int) -> int
+    decreases n
+{
+    if n <= 0 { 0 } else { ctts_total(e, n - 1) + e[n - 1].sample_count }
+}
+
+pub open spec fn ctts_covers(e: Seq<CttsEntry>, i: int, k: int) -> bool {
+    0 <= i < e.len() && ctts_total(e, i) < k <= ctts_total(e, i + 1)
+}
+
+pub proof fn lemma_ctts_total_mono(e: Seq<CttsEntry>, a: int, b: int)
+    requires 0 <= a <= b
+    ensures ctts_total(e, a) <= ctts_total(e, b)
+    decreases b - a
+{
+    if a < b { lemma_ctts_total_mono(e, a, b - 1); }
+}
+
+// ---------------------------------------------------------------- stsz (8.7.3.2)
+pub open spec fn stsz_size_of(z: StszBox, k: int) -> int {
+    if z.sample_size > 0 { z.sample_size as int } else { z.sample_sizes@[k - 1] as int }
+}
+
+/// sum of the sizes of samples a .. b-1
+pub open spec fn stsz_sum(z: StszBox, a: int, b: int) -> int
+    decreases b - a
+{
+    if b <= a { 0 } else { stsz_sum(z, a, b - 1) + stsz_size_of(z, b - 1) }
+}
+
+// ---------------------------------------------------------------- stsc + stco/co64 (8.7.4, 8.7.5)
+/// sample k (1-based) lies in run i of the sample-to-chunk map (runs are delimited by their first samples)
+pub open spec fn stsc_run_of(e: Seq<StscEntry>, i: int, k: int) -> bool {
+    &&& 0 <= i < e.len()
+    &&& stsc_first_sample(e, i) <= k
+    &&& (i + 1 < e.len() ==> k < stsc_first_sample(e, i + 1))
+}
+
+/// chunk (1-based) holding sample k of run i, and the first sample of that chunk
+pub open spec fn stsc_chunk_of(e: Seq<StscEntry>, i: int, k: int) -> int {
+    e[i].first_chunk + (k - stsc_first_sample(e, i)) / (e[i].samples_per_chunk as int)
+}
+
+pub open spec fn stsc_first_in_chunk(e: Seq<StscEntry>, i: int, k: int) -> int {
+    k - (k - stsc_first_sample(e, i)) % (e[i].samples_per_chunk as int)
+}
+
+pub open spec fn chunk_offset_iso(s: StblBox, c: int) -> int {
+    if s.stco is Some { s.stco->Some_0.entries@[c - 1] as int } else { s.co64->Some_0.entries@[c - 1] as int }
+}
+
+pub open spec fn chunk_count_iso(s: StblBox) -> int {
+    if s.stco is Some { s.stco->Some_0.entries@.len() as int } else if s.co64 is Some { s.co64->Some_0.entries@.len() as int } else { 0 }
+}
+
+/// file offset of sample k lying in stsc run i: offset of its chunk + sizes of the earlier samples of that chunk
+pub open spec fn sample_offset_iso(s: StblBox, i: int, k: int) -> int {
+    chunk_offset_iso(s, stsc_chunk_of(s.stsc.entries@, i, k))
+        + stsz_sum(s.stsz, stsc_first_in_chunk(s.stsc.entries@, i, k), k)
+}
+
+// ---------------------------------------------------------------- what the parser establishes, and what C03 assumes
+/// established by StblBox::read_box through its children's postconditions (no assumption about the file)
+pub open spec fn stbl_parsed(s: StblBox) -> bool {
+    &&& stsc_derived_ok(s.stsc.entries@, s.stsc.entries@.len() as int)
+    &&& stsz_fields_wire(s.stsz)
+    &&& (s.stco matches Some(x) ==> stco_fields_wire(x))
+    &&& (s.co64 matches Some(x) ==> co64_fields_wire(x))
+}
+
+/// C03's hypothesis: "a file whose sample tables are mutually consistent"
+pub open spec fn stbl_consistent(s: StblBox) -> bool {
+    let n = s.stsz.sample_count as int;
+    let sc = s.stsc.entries@;
+    let last = sc.len() - 1;
+    &&& stbl_parsed(s)
+    // (the reader counts samples in u32 starting from 1: the one table size it cannot index is excluded)
+    &&& n < 0xffff_ffff
+    // time-to-sample and composition-offset runs account for exactly the n samples
+    &&& stts_total(s.stts.entries@, s.stts.entries@.len() as int) == n
+    &&& (s.ctts matches Some(c) ==> ctts_total(c.entries@, c.entries@.len() as int) == n)
+    // sync table strictly increasing, in range
+    &&& (s.stss matches Some(y) ==> sorted_strict(y.entries@)
+            && forall|j: int| 0 <= j < y.entries@.len() ==> 1 <= #[trigger] y.entries@[j] <= n)
+    // exactly one chunk-offset table; the chunk map starts at chunk 1, has positive run lengths, strictly increasing
+    // first chunks, refers to existing chunks, and its chunks hold exactly the n samples
+    &&& (s.stco is Some) != (s.co64 is Some)
+    &&& (n > 0 ==> sc.len() > 0)
+    &&& (sc.len() > 0 ==> sc[0].first_chunk == 1
+            && last_chunk_ok(s, n))
+    &&& forall|i: int| 0 <= i < sc.len() ==> (#[trigger] sc[i]).samples_per_chunk >= 1
+    &&& forall|i: int| 0 < i < sc.len() ==> #[trigger] stsc_strict_at(sc, i)
+    // every chunk ends inside a 2^63 byte file
+    &&& forall|i: int, k: int| #![trigger sample_offset_iso(s, i, k)] stsc_run_of(sc, i, k) && 1 <= k <= n
+            ==> sample_offset_iso(s, i, k) + stsz_size_of(s.stsz, k) <= 0x7fff_ffff_ffff_ffff
+}
+
+pub open spec fn stsc_strict_at(e: Seq<StscEntry>, i: int) -> bool { e[i - 1].first_chunk < e[i].first_chunk }
+
+/// the last run's chunks reach exactly the last chunk of the offset table and the n-th sample
+pub open spec fn last_chunk_ok(s: StblBox, n: int) -> bool {
+    let sc = s.stsc.entries@;
+    let last = sc.len() - 1;
+    let c = chunk_count_iso(s);
+    &&& sc[last].first_chunk <= c
+    &&& stsc_first_sample(sc, last) - 1 + (c + 1 - sc[last].first_chunk) * sc[last].samples_per_chunk == n
+}
+
+pub open spec fn stbl_of(t: Mp4Track) -> StblBox { t.trak.mdia.minf.stbl }
+
+/// what Mp4Reader::read_header establishes for every track it hands out (parser guarantees only)
+pub open spec fn track_parsed(t: Mp4Track) -> bool {
+    &&& stbl_parsed(stbl_of(t))
+    &&& t.trafs@.len() == t.moof_offsets@.len()
+}
+
+pub open spec fn track_plain(t: Mp4Track) -> bool { t.trafs@.len() == 0 }
+
+pub proof fn lemma_ctts_covers_unique(e: Seq<CttsEntry>, i: int, j: int, k: int)
+    requires ctts_covers(e, i, k), ctts_covers(e, j, k)
+    ensures i == j
+{
+    if i < j { lemma_ctts_total_mono(e, i + 1, j); }
+    if j < i { lemma_ctts_total_mono(e, j + 1, i); }
+}
+
+// ---- facts about the chunk map that follow from consistency (used by the proof of sample_offset)
+
+/// first samples of the runs are positive and (under consistency) strictly increasing
+pub proof fn lemma_stsc_first_sample_pos(e: Seq<StscEntry>, i: int)
+    requires 0 <= i < e.len(), forall|j: int| 0 < j < e.len() ==> #[trigger] stsc_mono_at(e, j)
+    ensures stsc_first_sample(e, i) >= 1
+    decreases i
+{
+    if i > 0 {
+        lemma_stsc_first_sample_pos(e, i - 1);
+        assert(stsc_mono_at(e, i));
+        assert((e[i].first_chunk - e[i - 1].first_chunk) * e[i - 1].samples_per_chunk >= 0) by(nonlinear_arith)
+            requires e[i].first_chunk - e[i - 1].first_chunk >= 0, e[i - 1].samples_per_chunk >= 0;
+    }
+}
+
+pub proof fn lemma_stsc_first_chunk_mono(e: Seq<StscEntry>, a: int, b: int)
+    requires 0 <= a <= b < e.len(), forall|j: int| 0 < j < e.len() ==> #[trigger] stsc_strict_at(e, j)
+    ensures e[a].first_chunk + (b - a) <= e[b].first_chunk
+    decreases b - a
+{
+    if a < b { lemma_stsc_first_chunk_mono(e, a, b - 1); assert(stsc_strict_at(e, b)); }
+}
+
+/// the chunk of a sample of run i is an existing chunk (1..=C)
+pub proof fn lemma_chunk_in_range(s: StblBox, i: int, k: int)
+    requires stbl_consistent(s), stsc_run_of(s.stsc.entries@, i, k), 1 <= k <= s.stsz.sample_count
+    ensures 1 <= stsc_chunk_of(s.stsc.entries@, i, k) <= chunk_count_iso(s),
+            stsc_chunk_of(s.stsc.entries@, i, k) <= 0xffff_ffff,
+            1 <= stsc_first_in_chunk(s.stsc.entries@, i, k) <= k,
+            k - stsc_first_in_chunk(s.stsc.entries@, i, k) < s.stsc.entries@[i].samples_per_chunk
+{
+    let e = s.stsc.entries@;
+    let last = e.len() - 1;
+    let c = chunk_count_iso(s);
+    let spc = e[i].samples_per_chunk as int;
+    let fs = stsc_first_sample(e, i);
+    let d = k - fs;
+    assert forall|j: int| 0 < j < e.len() implies #[trigger] stsc_mono_at(e, j) by { assert(stsc_strict_at(e, j)); }
+    lemma_stsc_first_sample_pos(e, i);
+    lemma_stsc_first_chunk_mono(e, 0, i);
+    lemma_stsc_first_chunk_mono(e, i, last);
+    if i < last { lemma_stsc_first_chunk_mono(e, i + 1, last); }
+    assert(c <= 0xffff_ffff);
+    assert(e[i].samples_per_chunk >= 1);
+    assert(d / spc >= 0 && d % spc >= 0 && d % spc < spc && d % spc <= d && d == spc * (d / spc) + d % spc) by(nonlinear_arith)
+        requires d >= 0, spc >= 1;
+    if i < last {
+        let m = e[i + 1].first_chunk - e[i].first_chunk;
+        assert(stsc_first_sample(e, i + 1) == fs + m * spc);
+        assert(d / spc < m) by(nonlinear_arith) requires d < m * spc, spc >= 1, d >= 0, d == spc * (d / spc) + d % spc, d % spc >= 0;
+    } else {
+        let m = c + 1 - e[last].first_chunk;
+        assert(d / spc < m) by(nonlinear_arith) requires d < m * spc, spc >= 1, d >= 0, d == spc * (d / spc) + d % spc, d % spc >= 0;
+    }
+}
+
+/// a sample id past the count maps to a chunk past the chunk table (so the lookup cannot succeed)
+pub proof fn lemma_chunk_beyond(s: StblBox, i: int, k: int)
+    requires stbl_consistent(s), s.stsc.entries@.len() > 0, i == s.stsc.entries@.len() - 1,
+             k > s.stsz.sample_count, stsc_first_sample(s.stsc.entries@, i) <= k
+    ensures stsc_chunk_of(s.stsc.entries@, i, k) > chunk_count_iso(s)
+{
+    let e = s.stsc.entries@;
+    let c = chunk_count_iso(s);
+    let spc = e[i].samples_per_chunk as int;
+    let fs = stsc_first_sample(e, i);
+    let d = k - fs;
+    let m = c + 1 - e[i].first_chunk;
+    assert(e[i].samples_per_chunk >= 1);
+    assert(d >= m * spc);
+    assert(d / spc >= m) by(nonlinear_arith) requires d >= m * spc, spc >= 1, m >= 0;
+}
+
+/// the complete ISO answer for sample k of a consistent non-fragmented track
+pub open spec fn sample_iso(s: StblBox, d: Seq<u8>, k: int, m: Mp4Sample) -> bool {
+    let z = s.stsz;
+    exists|ri: int, ti: int| #![trigger stsc_run_of(s.stsc.entries@, ri, k), stts_covers(s.stts.entries@, ti, k)]
+        stsc_run_of(s.stsc.entries@, ri, k) && stts_covers(s.stts.entries@, ti, k)
+        && sample_offset_iso(s, ri, k) + stsz_size_of(z, k) <= d.len()
+        && m.bytes@ == d.subrange(sample_offset_iso(s, ri, k), sample_offset_iso(s, ri, k) + stsz_size_of(z, k))
+        && m.start_time == stts_time_in(s.stts.entries@, ti, k)
+        && m.duration == s.stts.entries@[ti].sample_delta
+        && (s.ctts is None ==> m.rendering_offset == 0)
+        && (s.ctts matches Some(c) ==> forall|ci: int| ctts_covers(c.entries@, ci, k) ==> m.rendering_offset == c.entries@[ci].sample_offset)
+        && (s.stss is None ==> m.is_sync)
+        && (s.stss matches Some(y) ==> m.is_sync == y.entries@.contains(k as u32))
+}
+
+/// the first sample of every run of a consistent chunk map is at most n (no run starts past the end ... unless empty)
+pub proof fn lemma_first_sample_le_n(s: StblBox, i: int)
+    requires stbl_consistent(s), 0 < i < s.stsc.entries@.len()
+    ensures stsc_first_sample(s.stsc.entries@, i) <= s.stsz.sample_count + 1
+    decreases s.stsc.entries@.len() - i
+{
+    let e = s.stsc.entries@;
+    let last = e.len() - 1;
+    let c = chunk_count_iso(s);
+    if i == last {
+        let m = c + 1 - e[last].first_chunk;
+        assert(m * e[last].samples_per_chunk >= 0) by(nonlinear_arith) requires m >= 1, e[last].samples_per_chunk >= 1;
+    } else {
+        lemma_first_sample_le_n(s, i + 1);
+        assert(stsc_strict_at(e, i + 1));
+        assert((e[i + 1].first_chunk - e[i].first_chunk) * e[i].samples_per_chunk >= 0) by(nonlinear_arith)
+            requires e[i + 1].first_chunk - e[i].first_chunk >= 1, e[i].samples_per_chunk >= 1;
+    }
+}
+
+pub proof fn lemma_stts_cover_exists(e: Seq<SttsEntry>, n: int, k: int)
+    requires 0 <= n <= e.len(), 1 <= k <= stts_total(e, n)
+    ensures exists|i: int| stts_covers(e, i, k)
+    decreases n
+{
+    if n > 0 {
+        if k > stts_total(e, n - 1) {
+            assert(stts_covers(e, n - 1, k));
+        } else {
+            lemma_stts_cover_exists(e, n - 1, k);
+        }
+    }
+}
